@@ -121,19 +121,31 @@ Definition simple_init_stmt (k : nat) (s : stmt) : bool :=
 (* the body of a function whose result has the kind rk: any statement list if the result is plain; for a function
    result the last statement is a function-valued expression of that kind, and nothing before it or in it can leave the
    body early (so the value of the call is the value of that expression) *)
+(* the last statement of a function that returns a function: the function-valued expression itself, or `ret` of it *)
+Definition tail_fexpr (s : stmt) : option expr :=
+  match s with
+  | SStatementExpression e _ => Some e
+  | SRet (Some e) _ => Some e
+  | _ => None
+  end.
+
 Definition fbody_check (stmts : list stmt -> option (list N * list (N * kind)))
            (fexpr : list (N * kind) -> list N -> expr -> option kind) (k : nat) (body : list stmt) (rk : kind) : bool :=
   match rk with
   | KP => match stmts body with Some _ => true | None => false end
   | KF _ _ =>
       match split_last body with
-      | Some (init, SStatementExpression e _) =>
-          forallb (simple_init_stmt k) init && noexit_fexpr k e &&
-          match stmts init with
-          | Some (sc1, fl1) => match fexpr fl1 sc1 e with Some K => kind_eqb K rk | None => false end
+      | Some (init, last) =>
+          match tail_fexpr last with
+          | Some e =>
+              forallb (simple_init_stmt k) init && noexit_fexpr k e &&
+              match stmts init with
+              | Some (sc1, fl1) => match fexpr fl1 sc1 e with Some K => kind_eqb K rk | None => false end
+              | None => false
+              end
           | None => false
           end
-      | _ => false
+      | None => false
       end
   end.
 
@@ -394,7 +406,9 @@ Fixpoint frag_items (pv sv bound : N) (k : nat) (scg : list N) (fl : list (N * k
       end
   end.
 
-(* STAGE 4i (4h + COMPUTED CALLEES: in a call  c(a1, ..., an)  the callee c is the name of a function (as before) or any
+(* STAGE 4j (4i + `ret` OF A FUNCTION VALUE as the last statement of a function that returns a function: `ret fn x: int -> int do .. end`,
+   `ret mk(k)`, `ret f` (fbody_check, tail_fexpr);
+   4i = 4h + COMPUTED CALLEES: in a call  c(a1, ..., an)  the callee c is the name of a function (as before) or any
    other function-valued expression -- a call that returns a function: mk(1)(2), curry(1)(2)(3); a lambda called where it
    is written: (fn x: int -> int do ... end)(3) --, evaluated before the arguments;
    4h = 4g + FUNCTION-VALUED CONSTANTS  x :: <function value>  in any statement list and among the outer definitions: the value is the name of a
@@ -451,7 +465,7 @@ Fixpoint frag_items (pv sv bound : N) (k : nat) (scg : list N) (fl : list (N * k
    position, as the value of a constant or as the result of a function; a function name can be called and passed to a parameter of the same function kind, nothing
    else: so print, the operators, the conditions and the assignments only ever see plain values.
    NOT in the fragment: `ret` without a value (it returns Sylt's nil, the table __NIL), ASSIGNMENTS of function
-   values (`c = mk(2)`), `ret` of a function value, blobs, tuples, lists, enums/case, floats, division. *)
+   values (`c = mk(2)`), `ret` of a function value anywhere but as the last statement, blobs, tuples, lists, enums/case, floats, division. *)
 Definition frag (k : nat) (r : resolved) : bool :=
   let bound := N.of_nat (length (r_vars r)) + 1 in
   match r_stmts r with
